@@ -574,7 +574,7 @@ func runC11(w *azWorld) {
 			// the very same request again, some seconds later (a client that asks for its keys on every start):
 			// the ttl counts from this request
 			p, typ, ttl, chanLv, chanStr, badChan = prev.p, prev.typ, prev.ttl, prev.chanLv, prev.chanStr, prev.badChan
-			world.Advance(c, time.Duration(t.Range(2, 30))*time.Second)
+			w.advance(time.Duration(t.Range(2, 30)) * time.Second) // keeps the clients alive
 			c.Probe("identical-keygen-request-repeated-later")
 		}
 		prev.set, prev.p, prev.typ, prev.ttl, prev.chanLv, prev.chanStr, prev.badChan = true, p, typ, ttl, chanLv, chanStr, badChan
